@@ -17,6 +17,7 @@ def main():
     tmp = tempfile.mkdtemp()
     counter = [0]
     held = {}
+    given = []
     if not req.get("late_import"):
         import maflib.header  # noqa  (the supported lists are computed when this module is imported)
     for o in req["ops"]:
@@ -34,11 +35,21 @@ def main():
                                    "columns": d["columns"]}, h)
                     paths.append(p)
                 try:
+                    # the spelling of a file name: absolute, relative to the working directory, with a "./", or a pathlib.Path
+                    spell = o.get("spell", "abs")
+                    if spell != "abs":
+                        import pathlib
+                        os.chdir(tmp)
+                        paths = [os.path.basename(q) if spell == "rel" else "./" + os.path.basename(q) if spell == "dot" else pathlib.Path(q) for q in paths]
+                    if o.get("again"):
+                        # the caller hands over its whole configured list every time: the names given before, spelt as before, then the new ones
+                        paths = list(given) + paths
                     # the file names as the caller happens to hold them: a list, a tuple, or a one-shot iterable
                     form = o.get("paths_as", "list")
-                    arg = paths if form == "list" else tuple(paths) if form == "tuple" else (q for q in paths) if form == "generator" else map(str, paths)
+                    arg = paths if form == "list" else tuple(paths) if form == "tuple" else (q for q in paths) if form == "generator" else map(lambda q: q, paths)      # (one-shot, the spellings untouched)
                     SF.all_schemes(extra_filenames=arg)
                     steps.append({"exc": None})
+                    given.extend(q for q in paths if q not in given)      # (names of a refused call are not part of the caller's configured list)
                 except Exception as e:  # noqa
                     steps.append({"exc": exc_name(e)})
             elif k == "find":
